@@ -1526,7 +1526,9 @@ bintShiftRem(BInt b, int n)
 	
 	if (IsImmed(b)) {
 		IInt x = BIntToInt(b);
-		return IntToBInt(x & ((1 << n) - 1));
+		/* The mask must be as wide as the immediate value. */
+		if (n >= (int) bitsizeof(IInt)) n = bitsizeof(IInt) - 1;
+		return IntToBInt(x & (IInt) ((((UIInt) 1) << n) - 1));
 	}
 
 	r = bintAlloc(n);
